@@ -78,7 +78,9 @@ def cli_case(c, text, workdir, n):
         sys.stdout = io.TextIOWrapper(stdout_b, encoding=enc, newline='')
         sys.stderr = io.StringIO()
         argv += list(c['argv']) + ['--encoding', enc]
-        if c['out'] == 'outfile':
+        if c['out'] == 'samefile' and c['inp'] == 'file':
+            outpath = inpath                 # format a file in place: the input is read before the output is opened
+        if c['out'] in ('outfile', 'samefile'):
             argv += ['-o', outpath]
         try:
             rc = cli.main(argv)
@@ -88,7 +90,7 @@ def cli_case(c, text, workdir, n):
             rc = 'exception:%s' % type(e).__name__
         sys.stdout.flush()
         try:
-            if c['out'] == 'outfile':
+            if c['out'] in ('outfile', 'samefile'):
                 got = open(outpath, 'rb').read().decode(enc) if os.path.exists(outpath) else None
             else:
                 got = stdout_b.getvalue().decode(enc)
